@@ -1,4 +1,5 @@
 import SamplyModel.Lemmas.ContextSwitch
+import SamplyModel.Lemmas.ConvCs
 /-!
 # C12 — CPU-time and off-CPU accounting conserve time for every switch/sample history
 
@@ -100,6 +101,119 @@ theorem C12_sample_then_switch_in (interval t0 on off t u : Nat) :
     (step interval s1 (.switchIn u)).1.onAcc = s1.onAcc + (u - t) := by
   simp [step]
 
+/-! ## Converter level (`linux_shared/converter.rs`: sample path :282-314, `handle_sched_switch_sample` :380-418,
+`handle_context_switch` :838-872, `process_off_cpu_sample_group` :1811-1857)
+
+Model: `Conv.wake`, `sampleThread`, `switchOutThread`, `schedThread`, `offCpuGroup` in `Model/Converter.lean`; `Conv.step`
+looks the thread object up (`getByPid`, `getThread`) and applies exactly these functions to it
+(`C12_conv_step_*`, by `rfl`). `Conv.threadRun s pid tid h rs` iterates them over the records `rs` of one thread
+incarnation starting from a fresh `Thread`; `Conv.timed cfg rs` is the incarnation's bare history (accepted
+samples, switch-ins, switch-outs; a `sched_switch` sample counts as switch-out only in `SchedSwitchAndSamples`
+mode). The theorems below hold for every such list of records, any length, any interval > 0, in both modes
+with an off-CPU indicator.
+
+**What is missing for the record-history form** (hence `_partial`): that in `Conv.run cfg rs` the thread object
+bound to (pid, tid) between two records of the same incarnation is carried unchanged through the records of
+other threads and through FORK / COMM / MMAP2 records (the analogue of `C01_dedup_refinement`, which proves it
+for the field `lastTs`; `context_switch_data` and `off_cpu_stack` live in the same `Thread` object, are reset
+by `Thread::new` at the same places and are written nowhere else, but the invariant has not been generalised
+from `lastTs` to these fields). The record-history form is what the judge `ConvJudge.judgeCs` evaluates on
+samply's output for every generated case. -/
+open Conv
+
+/-- `process_off_cpu_sample_group`: the samples made from a group of `count ≥ 1` units carry, together, weight
+`count · off_cpu_weight_per_sample` (if `count − 1` fits an `i32`; otherwise the rest sample has weight 0, see
+`C12_group_saturated`), the whole cpu delta (on the first sample; the rest sample has 0) and sit at the
+converted begin (and, for `count > 1`, end) timestamps of the group. -/
+theorem C12_group (s : Conv.St) (h : Nat) (g : Group) (c : Nat) (stk : List SFrame) (lbl : String) (pid tid : Nat)
+    (hc : 1 ≤ g.count) (hsat : g.count - 1 < 2^31) :
+    offWeight (offCpuGroup s h g c stk lbl pid tid) = g.count * s.cfg.offWeight ∧
+    cpuSum (offCpuGroup s h g c stk lbl pid tid) = c ∧
+    (offCpuGroup s h g c stk lbl pid tid).map (·.t) =
+      (if g.count > 1 then [conv s g.begin_, conv s g.end_] else [conv s g.begin_]) ∧
+    (offCpuGroup s h g c stk lbl pid tid).map (·.cpu) = (if g.count > 1 then [c, 0] else [c]) := by
+  obtain ⟨a, b, d⟩ := offCpuGroup_sums s h g c stk lbl pid tid hc hsat
+  refine ⟨a, b, d, ?_⟩
+  unfold offCpuGroup
+  split <;> rfl
+
+/-- the excluded point of `C12_group`: a group of more than 2^31 units loses all but one unit of weight -/
+theorem C12_group_saturated (s : Conv.St) (h : Nat) (g : Group) (c : Nat) (stk : List SFrame) (lbl : String)
+    (pid tid : Nat) (hsat : 2^31 ≤ g.count - 1) :
+    offWeight (offCpuGroup s h g c stk lbl pid tid) = s.cfg.offWeight := by
+  have h1 : g.count > 1 := by omega
+  have h2 : ¬ (g.count - 1 < 2^31) := by omega
+  unfold offCpuGroup offWeight
+  rw [if_pos h1]
+  simp [i32OrZero, h2]
+
+/-- `Conv.step` applies the thread-level functions to the thread object it looks up -/
+theorem C12_conv_step_switchIn (s : Conv.St) (pid tid t : Nat) (h0 : tid ≠ 0) :
+    Conv.step s (.switchIn pid tid t) =
+      commitThread (getThread (getByPid s pid).1 (getByPid s pid).2 tid).1
+        (getThread (getByPid s pid).1 (getByPid s pid).2 tid).2.1 tid
+        (wake (getThread (getByPid s pid).1 (getByPid s pid).2 tid).1
+          (getThread (getByPid s pid).1 (getByPid s pid).2 tid).2.2 (.switchIn t) pid tid) := by
+  have e : Conv.step s (.switchIn pid tid t) = if tid = 0 then s else
+      commitThread (getThread (getByPid s pid).1 (getByPid s pid).2 tid).1
+        (getThread (getByPid s pid).1 (getByPid s pid).2 tid).2.1 tid
+        (wake (getThread (getByPid s pid).1 (getByPid s pid).2 tid).1
+          (getThread (getByPid s pid).1 (getByPid s pid).2 tid).2.2 (.switchIn t) pid tid) := rfl
+  rw [e, if_neg h0]
+
+theorem C12_conv_step_switchOut (s : Conv.St) (pid tid t : Nat) (h0 : tid ≠ 0) :
+    Conv.step s (.switchOut pid tid t) =
+      commitThread (getThread (getByPid s pid).1 (getByPid s pid).2 tid).1
+        (getThread (getByPid s pid).1 (getByPid s pid).2 tid).2.1 tid
+        (switchOutThread (getThread (getByPid s pid).1 (getByPid s pid).2 tid).1
+          (getThread (getByPid s pid).1 (getByPid s pid).2 tid).2.2 t) := by
+  have e : Conv.step s (.switchOut pid tid t) = if tid = 0 then s else
+      commitThread (getThread (getByPid s pid).1 (getByPid s pid).2 tid).1
+        (getThread (getByPid s pid).1 (getByPid s pid).2 tid).2.1 tid
+        (switchOutThread (getThread (getByPid s pid).1 (getByPid s pid).2 tid).1
+          (getThread (getByPid s pid).1 (getByPid s pid).2 tid).2.2 t) := rfl
+  rw [e, if_neg h0]
+
+/-- **CPU time, converter level.** For the records of one thread incarnation (time-ordered), in a mode with an
+off-CPU indicator and an interval > 0: the cpu deltas attached to all samples emitted for the thread (on-CPU
+samples and first samples of off-CPU groups; rest samples carry 0) plus what is still pending in the thread's
+accumulator equal the running time of the incarnation's bare history — also when groups are dropped for lack
+of a stored stack (the delta then stays pending and goes to the next sample) — and no checked arithmetic fails. -/
+theorem C12_conv_cpu_partial (s : Conv.St) (hi : 0 < s.cfg.interval) (hoc : s.cfg.offCpu.isSome = true) (pid tid h : Nat)
+    (rs : List TRec) (ho : TOrdered s.cfg (none, H.init) rs) :
+    cpuSum (threadRun s pid tid h rs).out + (threadRun s pid tid h rs).th.cs.onAcc
+      = (spec (timed s.cfg rs)).running ∧ (threadRun s pid tid h rs).safe = true := by
+  obtain ⟨_, hsafe, a, ainv, ast, ah, ahanded, _, _⟩ :=
+    threadRun_inv s hi hoc pid tid rs _ (none, H.init) (tinv_init s hi h) ho
+  refine ⟨?_, hsafe⟩
+  have h1 := ainv.1
+  rw [ahanded, ast, ah] at h1
+  rw [← threadSpec_eq]
+  exact h1
+
+/-- **Off-CPU time, converter level**, with the dropped-group caveat as a proven characterisation: the units
+(sample counts) of the groups that were turned into samples (`units`) plus the units of the groups dropped at a
+wake-up without a stored off-CPU stack (`dropped`; `threadStep` adds to it exactly then) account, together with
+the carried remainder (< interval) and the still open sleep, for the sleeping time of the incarnation's bare
+history; and unless a group of more than 2^31 units occurred (`sat`, the `i32` saturation), the weights of the
+emitted off-CPU samples add up to `units · off_cpu_weight_per_sample`. So sleeping time is lost from the profile
+exactly through `dropped` (and through `sat`). -/
+theorem C12_conv_offcpu_partial (s : Conv.St) (hi : 0 < s.cfg.interval) (hoc : s.cfg.offCpu.isSome = true)
+    (pid tid h : Nat) (rs : List TRec) (ho : TOrdered s.cfg (none, H.init) rs) :
+    let r := threadRun s pid tid h rs
+    r.th.cs.offAcc < s.cfg.interval ∧
+    (r.units + r.dropped) * s.cfg.interval + r.th.cs.offAcc
+      + (match (spec (timed s.cfg rs)).last, (spec (timed s.cfg rs)).sleepStart with
+         | some (now, false), some s0 => now - s0
+         | _, _ => 0)
+      = (spec (timed s.cfg rs)).sleeping ∧
+    (r.sat = false → offWeight r.out = r.units * s.cfg.offWeight) := by
+  intro r
+  have hinv := threadRun_inv s hi hoc pid tid rs _ (none, H.init) (tinv_init s hi h) ho
+  have key := tinv_offcpu hinv
+  rw [← threadSpec_eq]
+  exact key
+
 /-! ### Non-vacuity: the history of the repo's own unit test satisfies the hypotheses, and the
 conclusions are the numbers that test asserts. -/
 
@@ -113,3 +227,18 @@ example : (run 10 C12_testHistory).groups = [⟨24, 24, 1⟩, ⟨37, 47, 2⟩] :
 example : (run 10 C12_testHistory).handed = 30 ∧ (spec C12_testHistory).running = 30
     ∧ (spec C12_testHistory).sleeping = 31 := by decide
 example : (step 10 (run 10 (C12_testHistory.take 4)).st .consume).2.2 = some 10 := by decide
+
+/-- the same history at converter level (every switch-out announced by a `sched_switch` sample): the hypotheses
+of `C12_conv_*_partial` hold and the emitted samples are the ones the repo's test expects
+(time, weight, cpu delta, synthesized) -/
+def C12_convHistory : List TRec :=
+  [.switchIn 0, .sched 3 [], .switchOut 3, .switchIn 5, .sample 12 0 [], .sched 13 [], .switchOut 13, .switchIn 15,
+   .sched 16 [], .switchOut 16, .switchIn 21, .sched 23 [], .switchOut 23, .switchIn 27, .sched 30 [],
+   .switchOut 30, .switchIn 48, .sample 51 0 [], .sample 61 0 []]
+
+def C12_convSt : Conv.St := Conv.St.init { offCpu := some .contextSwitches, interval := 10 }
+
+example : TOrdered C12_convSt.cfg (none, H.init) C12_convHistory := by decide
+example : ((threadRun C12_convSt 1 2 0 C12_convHistory).out.map (fun u => (u.t, u.weight, u.cpu, u.synth))) =
+    [(12, 1, 10, false), (24, 1, 4, true), (37, 1, 3, true), (47, 1, 0, true), (51, 1, 3, false), (61, 1, 10, false)] := by
+  decide
